@@ -26,3 +26,8 @@ func VerifDescribe(l core.Limiter) (kind string, ordering QueueOrdering, maxBack
 
 // VerifDefaultParts exposes the strategy and limit of a DefaultLimiter.
 func VerifDefaultParts(l *DefaultLimiter) (core.Strategy, core.Limit) { return l.strategy, l.limit }
+
+// VerifSymbolicState puts a DefaultLimiter into an arbitrary state (sample window, next update time,
+// in-flight gauge) so that harnesses outside the package reach its state-dependent paths (window
+// roll-over, limit update) - used by the generated C17 race harnesses.
+func VerifSymbolicState(l *DefaultLimiter) { verifLimiterState(l) }
